@@ -8,6 +8,7 @@ import (
 	"net"
 	"net/http/httptest"
 	"os"
+	"path/filepath"
 	"strings"
 	"sync"
 	"sync/atomic"
@@ -20,6 +21,7 @@ import (
 	"github.com/inbucket/inbucket/v3/pkg/msghub"
 	"github.com/inbucket/inbucket/v3/pkg/policy"
 	"github.com/inbucket/inbucket/v3/pkg/rest"
+	"github.com/inbucket/inbucket/v3/pkg/server"
 	"github.com/inbucket/inbucket/v3/pkg/server/pop3"
 	"github.com/inbucket/inbucket/v3/pkg/server/smtp"
 	"github.com/inbucket/inbucket/v3/pkg/server/web"
@@ -52,6 +54,12 @@ type Cfg struct {
 	PreHost  func(h *extension.Host) `json:"-"`
 	PostHost func(h *extension.Host) `json:"-"`
 	NoHTTP   bool                    `json:"-"`
+	// Assembled builds the world with server.FullAssembly (the function cmd/inbucket calls) instead
+	// of wiring the components here: store from storage.FromConfig, Lua host from a script file,
+	// routes on the package's router, servers as the assembly parameterises them.  What the world
+	// exposes is then read back from the assembled services.  Ignored when PreHost is set (a
+	// listener in front of the Lua host cannot be had from the assembly).
+	Assembled bool `json:"assembled,omitempty"`
 	// Domain is the name the servers greet with (default inbucket.test); never part of a case.
 	Domain string `json:"-"`
 	// SMTPTimeout / POP3Timeout are the idle timeouts (default 60s), set by a check's Run.
@@ -169,6 +177,9 @@ func NewWorld(c Cfg) (*World, error) {
 		return nil, err
 	}
 	w.Conf = conf
+	if c.Assembled && c.PreHost == nil {
+		return w, w.assemble(c, conf)
+	}
 	w.Host = extension.NewHost()
 	if c.PreHost != nil {
 		c.PreHost(w.Host)
@@ -216,6 +227,50 @@ func NewWorld(c Cfg) (*World, error) {
 
 // Close stops the hub and HTTP server, waits for sessions and removes the scratch dir.
 // The hub is synced first so that no event goroutine is left behind to hit a stopped hub.
+// assemble fills w from server.FullAssembly(conf).
+func (w *World) assemble(c Cfg, conf *config.Root) error {
+	w.Dir = TempDir()
+	if c.Backend == "file" {
+		conf.Storage.Type, conf.Storage.Params = "file", map[string]string{"path": w.Dir}
+	} else {
+		conf.Storage.Type, conf.Storage.Params = "memory", map[string]string{}
+		if c.MaxKB > 0 {
+			conf.Storage.Params["maxkb"] = fmt.Sprint(c.MaxKB)
+		}
+	}
+	if c.Lua != "" {
+		conf.Lua.Path = filepath.Join(w.Dir, "generated.lua")
+		if err := os.WriteFile(conf.Lua.Path, []byte(c.Lua), 0o600); err != nil {
+			return err
+		}
+	}
+	web.Router = FreshRouter()
+	svc, err := server.FullAssembly(conf)
+	if err != nil {
+		return fmt.Errorf("FullAssembly: %v", err)
+	}
+	mgr, ok := svc.SMTPServer.VerifManager().(*message.StoreManager)
+	if !ok {
+		return fmt.Errorf("the assembled SMTP server delivers to a %T, not a *message.StoreManager", svc.SMTPServer.VerifManager())
+	}
+	w.Host, w.Hub, w.Lua = svc.ExtHost, svc.MsgHub, svc.LuaHost
+	w.Manager, w.Store, w.Policy = mgr, mgr.Store, mgr.AddrPolicy
+	w.SMTP, w.POP3 = svc.SMTPServer, svc.POP3Server
+	if c.PostHost != nil {
+		c.PostHost(w.Host)
+	}
+	w.Ctx, w.Cancel = context.WithCancel(context.Background())
+	w.hubDone = make(chan struct{})
+	go func() { w.Hub.Start(w.Ctx); close(w.hubDone) }()
+	if !c.NoHTTP {
+		w.HTTP = httptest.NewUnstartedServer(web.Router)
+		w.HTTPLog = &SyncBuffer{}
+		w.HTTP.Config.ErrorLog = log.New(w.HTTPLog, "", 0)
+		w.HTTP.Start()
+	}
+	return nil
+}
+
 func (w *World) Close() {
 	w.wg.Wait()
 	w.Quiesce()
